@@ -209,6 +209,17 @@ impl World {
         }
     }
 
+    /// hook: move the subscription identifier counter shared by all handle clones
+    pub fn set_next_sub_id(&mut self, v: u32) -> bool {
+        match self.handles.iter().flatten().next() {
+            Some(h) => {
+                h.verif_set_next_subscription_identifier(v);
+                true
+            }
+            None => false,
+        }
+    }
+
     pub fn mark_disconnected(&mut self, secs_ago: u64) -> bool {
         match &mut self.ctx {
             CtxSlot::Idle(c) | CtxSlot::Returned(c) => {
